@@ -530,6 +530,14 @@ theorem updateFromW_nodup (desc : Bytes) (o1 o2 : Int → List Bytes) : ∀ (bs 
 theorem updateTxW_nodup (o1 o2 : Int → List Bytes) (m : Infer.Model) (t : Infer.TTx) (h : m.countByAccount.keys.Nodup) :
     (updateTxW o1 o2 m t).countByAccount.keys.Nodup := updateFromW_nodup t.desc o1 o2 t.bookings 0 m h
 
+/-- training keeps every key of `countByAccount` once -/
+theorem trainW_nodup (os : Nat → (Int → List Bytes) × (Int → List Bytes)) : ∀ (txs : List Infer.TTx) (k : Nat) (m : Infer.Model),
+    m.countByAccount.keys.Nodup → (trainW os txs k m).countByAccount.keys.Nodup
+  | [], _, _, h => h
+  | t :: ts, k, m, h => by
+    rw [trainW]
+    exact trainW_nodup os ts (k + 1) _ (updateTxW_nodup _ _ m t h)
+
 /-! ### parsed trees -/
 
 section
